@@ -133,8 +133,9 @@ def classify(d, meta, genpath):
                 e = lm.get(str(ln)) or lm.get(ln)
                 if e:
                     labels.extend(e.get('labels', []))
-                    if not sp.get('is_primary') and 'failed' in (sp.get('label') or '') and e.get('fn') is None:
-                        clause_in_prelude = True
+                if not sp.get('is_primary') and 'failed' in (sp.get('label') or '') and (e is None or e.get('fn') is None):
+                    # the violated clause is outside every extracted function: a prelude / std stand-in contract
+                    clause_in_prelude = True
         if fn is None and ours:
             for ln in rng:
                 e = lm.get(str(ln)) or lm.get(ln)
@@ -384,7 +385,7 @@ def write_replay(pid, violations, units):
                 fnmeta[f['name']] = f
     out = dict(property=pid, failing_input=None, note='Verus gives no counterexample; see verifier_output',
                failed_obligations=[dict(obligation=v['obligation'], unit=v['unit'], function=v['fn'], kind=v['kind'],
-                                        clause=v['clause'], source=fnmeta.get(v['fn']), verifier_output=v['rendered']) for v in violations])
+                                        clause=v['clause'], source=fnmeta.get(v['fn']), verifier_output=v['rendered'], kani=v.get('kani')) for v in violations])
     json.dump(out, open(path, 'w'), indent=1)
     return path
 
@@ -439,6 +440,22 @@ def main_(argv):
     known = load_known_findings()
     baseline = load_baseline()
     violations, knowns, undec, stats = decide(pid, units, known, baseline)
+    kres = kani_phase(pid, a.tier, units)
+    kani_viol = []
+    for r in kres:
+        if r['kind'] == 'complete' or r['why'] == 'tier':
+            stats['obligations'] += 1
+            if r['status'] == 'ok':
+                stats['discharged'] += 1
+        if len(stats['samples']) < 16:
+            stats['samples'].append(dict(obligation=r['label'], backend='kani-cbmc %s' % r['kind'], bound=r['bound'], status=r['status'], solver_s=r['solver_s']))
+        if r['status'] == 'failed':
+            kani_viol.append(r)
+        elif r['status'] == 'error':
+            undec.append('kani harness %s did not complete: %s' % (r['harness'], r['tail'][-300:].replace('\n', ' ')))
+    if kani_viol and not violations:
+        # a Kani refutation (complete or bounded) on the real crate is a counterexample, also when Verus could not parse the change
+        undec = [x for x in undec if not x.split(': ', 1)[-1].startswith(('front-end', 'extraction', 'verus produced'))] if all(r['why'] == 'fallback' for r in kani_viol) else undec
     wall = time.time() - t0
     # evidence
     ev = dict(property_id=pid, tier=a.tier, seed=seed, level='proof', wall_s=round(wall, 2), violations=len(violations),
@@ -449,17 +466,43 @@ def main_(argv):
                                         functions_under_contract=[dict(name=f['name'], file=f['file'], lines=f['lines'], sha256=f['sha256'], rules=f['rules']) for f in (u.get('meta') or {}).get('functions', [])],
                                         smt=dict((k, v) for k, v in sorted(u.get('functions', {}).items())),
                                         assumption_scan=u.get('assumption_scan', {}).get('counts')) for u in units],
+                            kani=[dict((k, v) for k, v in r.items() if k not in ('tail',)) for r in kres],
                             undecided=undec, known_findings=[k[0]['text'] for k in knowns]),
               assumptions=open(os.path.join(VERIF, 'contracts', 'ASSUMPTIONS.txt')).read().strip().split('\n') if os.path.exists(os.path.join(VERIF, 'contracts', 'ASSUMPTIONS.txt')) else [])
-    os.makedirs(os.path.join(VERIF, 'evidence'), exist_ok=True)
-    json.dump(ev, open(os.path.join(VERIF, 'evidence', pid + '.json'), 'w'), indent=1)
+    evdir = os.path.join(VERIF, 'evidence') if os.environ.get('REPO', '/repo') == '/repo' else os.path.join(VERIF, 'gen', 'evidence-scratch')
+    os.makedirs(evdir, exist_ok=True)
+    json.dump(ev, open(os.path.join(evdir, pid + '.json'), 'w'), indent=1)
     for k, rec in knowns:
         print('KNOWN-FINDING: property=%s %s @ %s: %s' % (pid, rec['obligation'], rec['fn'], k['text']))
+    if kani_viol:
+        os.makedirs(os.path.join(VERIF, 'replays'), exist_ok=True)
+        path = os.path.join(VERIF, 'replays', '%s-kani-%d.json' % (pid, int(time.time())))
+        json.dump(dict(property=pid, failed_obligations=[dict(obligation=r['label'], harness=r['harness'], backend='kani-cbmc ' + r['kind'], bound=r['bound'],
+                  failed_checks=r['failed_checks'], concrete_playback=r['playback'],
+                  how_to_replay='tools/run_kani.sh %s "%s" -Z concrete-playback --concrete-playback=print  (prints a #[test] that calls the real functions with these bytes)' % (r['harness'], ''))
+                  for r in kani_viol]), open(path, 'w'), indent=1)
+        for r in kani_viol:
+            print('failed obligation %s: Kani harness %s (%s) FAILED: %s' % (r['label'], r['harness'], r['kind'], '; '.join(r['failed_checks'])[:300]))
+        print('VIOLATION property=%s replay=%s obligation=%s%s' % (pid, path, kani_viol[0]['label'], '' if kani_viol[0]['playback'] else ' no-failing-input-found'))
+        return 1
     if violations:
+        # for kernels with a Kani harness on the real function: obtain a concrete input (or detect a brittle proof)
+        hs = load_harnesses()
+        for v in violations:
+            for h in hs:
+                if v['fn'] in h.get('functions', []) and v['unit'] == h.get('unit'):
+                    r = run_kani(h, playback=True)
+                    v['kani'] = dict(harness=h['harness'], kind=h['kind'], bound=h.get('bound'), status=r['status'], failed_checks=r['failed_checks'], concrete_playback=r['playback'])
+                    break
+        if all(v.get('kani', {}).get('status') == 'ok' and v['kani']['kind'] == 'complete' for v in violations):
+            for v in violations:
+                print('UNDECIDED: %s fails in Verus but the complete Kani harness %s proves the same contract on the real function: brittle proof, not a violation' % (v['obligation'], v['kani']['harness']))
+            return 2
         path = write_replay(pid, violations, units)
         for v in violations[:20]:
             print('failed obligation %s in %s [%s unit]: %s' % (v['obligation'], v['fn'], v['unit'], v['message']))
-        print('VIOLATION property=%s replay=%s obligation=%s no-failing-input-found' % (pid, path, violations[0]['obligation']))
+        has_input = any((v.get('kani') or {}).get('concrete_playback') for v in violations)
+        print('VIOLATION property=%s replay=%s obligation=%s%s' % (pid, path, violations[0]['obligation'], '' if has_input else ' no-failing-input-found'))
         return 1
     if undec or stats['obligations'] == 0 or stats['discharged'] != stats['obligations']:
         for x in undec[:20]:
@@ -469,6 +512,68 @@ def main_(argv):
         return 2
     print('OK property=%s obligations=%d discharged=%d units=%s wall=%.1fs' % (pid, stats['obligations'], stats['discharged'], ','.join(u['unit'] for u in units), wall))
     return 0
+
+
+# ---------------------------------------------------------------- Kani (roles per DESIGN.md 2.5)
+def load_harnesses():
+    return json.load(open(os.path.join(VERIF, 'kani', 'harnesses.json')))
+
+
+def run_kani(h, playback=False):
+    """Run one harness against a scratch copy of the crate (shared per feature set within this process)."""
+    feat = h.get('features', '')
+    scratch = os.path.join(GEN, 'kani-' + (feat or 'default'))
+    os.makedirs(scratch, exist_ok=True)
+    env = dict(os.environ, KANI_SCRATCH=scratch, KANI_TIMEOUT=str(h.get('timeout', 2400)))
+    cmd = [os.path.join(VERIF, 'tools', 'run_kani.sh'), h['harness'], feat]
+    if playback:
+        cmd += ['-Z', 'concrete-playback', '--concrete-playback=print']
+    t0 = time.time()
+    p = subprocess.run(cmd, stdout=subprocess.PIPE, stderr=subprocess.STDOUT, text=True, env=env)
+    out = p.stdout
+    wall = time.time() - t0
+    if 'VERIFICATION:- SUCCESSFUL' in out:
+        status = 'ok'
+    elif 'VERIFICATION:- FAILED' in out:
+        status = 'failed'
+    else:
+        status = 'error'
+    failed = re.findall(r'Failed Checks: (.*)', out)
+    m = re.search(r'\*\* (\d+) of (\d+) failed', out)
+    vt = re.search(r'Verification Time: ([0-9.]+)s', out)
+    pb = ''
+    if playback:
+        i = out.find('Concrete playback unit test')
+        pb = out[i:i + 6000] if i >= 0 else ''
+    return dict(harness=h['harness'], status=status, failed_checks=failed[:10], checks=int(m.group(2)) if m else 0,
+                solver_s=float(vt.group(1)) if vt else None, wall=round(wall, 1), playback=pb,
+                cmd='KANI_SCRATCH=<scratch copy of $REPO> tools/run_kani.sh %s %s' % (h['harness'], feat), tail=out[-1500:] if status == 'error' else '')
+
+
+def kani_phase(pid, tier, units):
+    """Harnesses that decide (quick/thorough) or arbitrate a front-end failure (fallback) for this property."""
+    hs = [h for h in load_harnesses() if pid in h['properties']]
+    chosen = []
+    for h in hs:
+        if tier in h['tiers'] or (tier == 'thorough' and 'quick' in h['tiers']):
+            chosen.append((h, 'tier'))
+        elif 'fallback' in h['tiers']:
+            for u in units:
+                if u['unit'] == h.get('unit') and u['status'] == 'undecided' and any(x.startswith(('front-end', 'extraction', 'verus produced')) for x in u['undecided']):
+                    chosen.append((h, 'fallback'))
+                    break
+    results = []
+    for h, why in chosen:
+        r = run_kani(h)
+        if r['status'] == 'failed':
+            r2 = run_kani(h, playback=True)
+            r['playback'] = r2['playback']
+        r['why'] = why
+        r['kind'] = h['kind']
+        r['bound'] = h.get('bound')
+        r['label'] = h['label']
+        results.append(r)
+    return results
 
 
 def included(unit):
